@@ -9,6 +9,7 @@ import TdVerif.Model.C13Params
 import TdVerif.Lemmas.C13Params
 import TdVerif.Model.C13Inplace
 import TdVerif.Lemmas.C13Inplace
+import TdVerif.Lemmas.C13Lazy
 
 namespace TdVerif.Props.C13
 open TdVerif.C13
@@ -283,16 +284,16 @@ theorem nested_blocks_restore (σ : State) (p1 p2 : List (Name × PTree)) (m1 m2
 /-! ## the pinned code (4564555) does not have these properties: regression anchors -/
 
 def h0 : Heap := fun c =>
-  if c = 0 then { params := [("w", some ⟨1, true⟩)], buffers := [("rm", some ⟨2, false⟩)] } else {}
+  if c = 0 then { params := [("w", some ⟨1, true, false⟩)], buffers := [("rm", some ⟨2, false, false⟩)] } else {}
 
 /-- pinned `__exit__`: an exception in the body leaves the parameter out of `_parameters` (the swapped-in
 tensor sits in `__dict__`) and the record in `_last_op_queue`. -/
 theorem old_exit_on_raise_counterexample :
-    (execOld ⟨h0, []⟩ [.tryExcept [.block [("w", .leaf ⟨10, false⟩)] 0 false [.raise]]]).2 = .normal ∧
-    cellAt (execOld ⟨h0, []⟩ [.tryExcept [.block [("w", .leaf ⟨10, false⟩)] 0 false [.raise]]]).1.heap 0 "w"
-      = ⟨none, none, some ⟨10, false⟩⟩ ∧
-    cellAt h0 0 "w" = ⟨some (some ⟨1, true⟩), none, none⟩ ∧
-    ((execOld ⟨h0, []⟩ [.tryExcept [.block [("w", .leaf ⟨10, false⟩)] 0 false [.raise]]]).1.td 0).queue.length = 1 := by
+    (execOld ⟨h0, []⟩ [.tryExcept [.block [("w", .leaf ⟨10, false, false⟩)] 0 false [.raise]]]).2 = .normal ∧
+    cellAt (execOld ⟨h0, []⟩ [.tryExcept [.block [("w", .leaf ⟨10, false, false⟩)] 0 false [.raise]]]).1.heap 0 "w"
+      = ⟨none, none, some ⟨10, false, false⟩⟩ ∧
+    cellAt h0 0 "w" = ⟨some (some ⟨1, true, false⟩), none, none⟩ ∧
+    ((execOld ⟨h0, []⟩ [.tryExcept [.block [("w", .leaf ⟨10, false, false⟩)] 0 false [.raise]]]).1.td 0).queue.length = 1 := by
   simp [execOld, execList, execStmt, toModule, swap, swapEntries, swapEntriesWith, setTensor, setTensorNative, setTensorWith,
     h0, Dict.get?, Dict.pop, place, Dict.set, Option.join, enterBlock, exitBlockOld, State.td, State.setTd,
     Heap.upd, cellAt, Mod.cell]
@@ -308,11 +309,123 @@ def roundTripOld (h : Heap) (m : MId) (p : List (Name × PTree)) : Option Heap :
 /-- pinned `_set_tensor_dict`: a Parameter swapped into a buffer slot and swapped back (normal exit)
 leaves the buffer in `__dict__`. -/
 theorem old_buffer_demotion_counterexample :
-    (roundTripOld h0 0 [("rm", .leaf ⟨11, true⟩)]).map (fun h => cellAt h 0 "rm")
-      = some ⟨none, none, some ⟨2, false⟩⟩ ∧
-    cellAt h0 0 "rm" = ⟨none, some (some ⟨2, false⟩), none⟩ := by
+    (roundTripOld h0 0 [("rm", .leaf ⟨11, true, false⟩)]).map (fun h => cellAt h 0 "rm")
+      = some ⟨none, none, some ⟨2, false, false⟩⟩ ∧
+    cellAt h0 0 "rm" = ⟨none, some (some ⟨2, false, false⟩), none⟩ := by
   simp [roundTripOld, swapOld, swapEntriesWith, setTensorOld, setTensorWith, h0, Dict.get?, Dict.pop,
     placeOld, Dict.set, Option.join, Heap.upd, cellAt, Mod.cell]
+
+/-! ## `return_swap=False` -/
+
+def LeavesOnly : List (Name × PTree) → Prop
+  | [] => True
+  | (_, .leaf _) :: r => LeavesOnly r
+  | (_, .node _) :: _ => False
+
+theorem install_leaves_aux : ∀ (es : List (Name × PTree)) (h : Heap) (memo : Memo) (m : MId), LeavesOnly es →
+    installEntriesWith setTensor h m es =
+      match swapEntries h memo m es with
+      | .ok (h', _, _) => .ok h'
+      | .error e => .error e
+  | [], h, memo, m, _ => by simp [installEntriesWith, swapEntries, swapEntriesWith]
+  | (k, .leaf t) :: rest, h, memo, m, hl => by
+    simp only [LeavesOnly] at hl
+    simp only [installEntriesWith, swapEntries, swapEntriesWith]
+    cases hst : setTensor (h m) k t with
+    | error e => rfl
+    | ok r =>
+      obtain ⟨md, out⟩ := r
+      simp only []
+      rw [install_leaves_aux rest (h.upd m md) memo m hl]
+      simp only [swapEntries]
+      cases swapEntriesWith setTensor (h.upd m md) memo m rest with
+      | error e => rfl
+      | ok r => rfl
+  | (k, .node es) :: rest, h, memo, m, hl => by simp [LeavesOnly] at hl
+
+/-- **install_agrees_on_one_module** — `to_module(module, return_swap=False)` with a parameter tensordict without
+nested entries (one module) changes the module exactly as the default call does (same slots, same order, same
+error and same half-written state when a key is missing); the theorems on the swap (`swap_installs_leaf`, the
+slot discipline of `set_tensor_involutive`) hold for it. -/
+theorem install_agrees_on_one_module (h : Heap) (m : MId) (p : List (Name × PTree)) (hl : LeavesOnly p) :
+    install h m p = match swap h m p with
+      | .ok (h', _) => .ok h'
+      | .error e => .error e := by
+  unfold install swap
+  rw [install_leaves_aux p h [(m, none)] m hl]
+  cases swapEntries h [(m, none)] m p with
+  | error e => rfl
+  | ok r => rfl
+
+/-- `return_swap=False` never changes which submodules a module has -/
+theorem install_keeps_kids : ∀ (es : List (Name × PTree)) (h h' : Heap) (m : MId),
+    installEntriesWith setTensor h m es = .ok h' → ∀ c, (h' c).kids = (h c).kids
+  | [], h, h', m, hr, c => by
+    simp only [installEntriesWith] at hr; injection hr with hr; subst hr; rfl
+  | (k, .leaf t) :: rest, h, h', m, hr, c => by
+    simp only [installEntriesWith] at hr
+    cases hst : setTensor (h m) k t with
+    | error e => simp [hst] at hr
+    | ok r =>
+      obtain ⟨md, out⟩ := r
+      simp only [hst] at hr
+      rw [install_keeps_kids rest _ h' m hr c]
+      unfold Heap.upd; split
+      · rename_i hc; rw [(setTensor_ok hst).2.2, hc]
+      · rfl
+  | (k, .node es) :: rest, h, h', m, hr, c => by
+    simp only [installEntriesWith] at hr
+    split at hr
+    · cases hr
+    · cases hr
+    · rename_i c' hk
+      cases h1 : installEntriesWith setTensor h c' es with
+      | error e => simp [h1] at hr
+      | ok h2 =>
+        simp only [h1] at hr
+        rw [install_keeps_kids rest h2 h' m hr c, install_keeps_kids es h h2 c' h1 c]
+
+/-! ## lazy (uninitialised) parameters: the forward pre-hooks -/
+
+/-- **hooks_never_removed** — a swap only ever adds forward pre-hooks. -/
+theorem hooks_never_removed {h h' : Heap} {m : MId} {p s} (hs : swap h m p = .ok (h', s)) (c : MId) :
+    (h c).preHooks ≤ (h' c).preHooks := by
+  obtain ⟨memo1, hrun⟩ := swap_inv hs
+  exact (swap_hooks p h _ m h' memo1 s hrun).1 c
+
+/-- **with_block_hooks_unchanged_without_lazy** — when neither the parameters swapped in nor the module's own
+tensors are uninitialised, a whole with-block (entry, any body leaving heap `hb`, exit) registers no hook on
+any module. -/
+theorem with_block_hooks_unchanged_without_lazy {h h1 hb h2 : Heap} {m : MId} {p s s2}
+    (hin : swap h m p = .ok (h1, s)) (hout : swap hb m s = .ok (h2, s2))
+    (hnd : LeafNodup p) (hp : NoLazyEs p) (hh : HeapNoLazy h) (c : MId) :
+    (h1 c).preHooks = (h c).preHooks ∧ (h2 c).preHooks = (hb c).preHooks := by
+  obtain ⟨memo1, hrun1⟩ := swap_inv hin
+  obtain ⟨memo2, hrun2⟩ := swap_inv hout
+  have hs : NoLazyEs s := installs_noLazy hh s m (swap_held hin hnd)
+  exact ⟨(swap_hooks p h _ m h1 memo1 s hrun1).2 hp c, (swap_hooks s hb _ m h2 memo2 s2 hrun2).2 hs c⟩
+
+/-- a module holding one uninitialised parameter (a lazy layer before its first forward) -/
+def hLazy : Heap := fun c => if c = 0 then { params := [("w", some ⟨1, true, true⟩)] } else {}
+
+/-- the with-protocol, normal exit: the heap inside the block and the heap after it -/
+def roundTripHeaps (h : Heap) (m : MId) (p : List (Name × PTree)) : Option (Heap × Heap) :=
+  match swap h m p with
+  | .ok (h1, s) => match swap h1 m s with
+    | .ok (h2, _) => some (h1, h2)
+    | .error _ => none
+  | .error _ => none
+
+/-- **lazy_hook_leak_counterexample** — with a lazy module, every with-block leaves one more forward pre-hook
+per uninitialised parameter on the module (registered when `__exit__` puts the uninitialised parameter back; each
+removes itself at the next forward): the tensors are restored, `_forward_pre_hooks` is not. Recorded as an
+observation: the property speaks about the tensors. -/
+theorem lazy_hook_leak_counterexample :
+    (roundTripHeaps hLazy 0 [("w", .leaf ⟨10, true, false⟩)]).map
+        (fun hh => (cellAt hh.2 0 "w", (hh.1 0).preHooks, (hh.2 0).preHooks))
+      = some (cellAt hLazy 0 "w", 0, 1) ∧ (hLazy 0).preHooks = 0 := by
+  simp [roundTripHeaps, swap, swapEntries, swapEntriesWith, setTensor, setTensorNative, setTensorWith, hLazy,
+    Dict.get?, Dict.pop, place, Dict.set, Option.join, Heap.upd, cellAt, Mod.cell]
 
 /-! ## non-vacuity -/
 
@@ -328,11 +441,11 @@ example : HeapWF h0 := by
       · simp [Mod.cell, Dict.get?, h1, h2, CellWF]
   · simp [hc, Mod.cell, Dict.get?, CellWF]
 
-example : (exec ⟨h0, []⟩ [.tryExcept [.block [("w", .leaf ⟨10, false⟩), ("rm", .leaf ⟨11, true⟩)] 0 true [.nop, .raise]]]).2
+example : (exec ⟨h0, []⟩ [.tryExcept [.block [("w", .leaf ⟨10, false, false⟩), ("rm", .leaf ⟨11, true, false⟩)] 0 true [.nop, .raise]]]).2
     = .normal := by
   simp [exec, execList, execStmt, toModule, swap, swapEntries, swapEntriesWith, setTensor, setTensorNative, setTensorWith,
     h0, Dict.get?, Dict.pop, place, Dict.set, Option.join, enterBlock, exitBlock, quickSet, State.td, State.setTd, Heap.upd]
-example : cellAt (exec ⟨h0, []⟩ [.tryExcept [.block [("w", .leaf ⟨10, false⟩), ("rm", .leaf ⟨11, true⟩)] 0 true [.nop, .raise]]]).1.heap 0 "rm"
+example : cellAt (exec ⟨h0, []⟩ [.tryExcept [.block [("w", .leaf ⟨10, false, false⟩), ("rm", .leaf ⟨11, true, false⟩)] 0 true [.nop, .raise]]]).1.heap 0 "rm"
     = cellAt h0 0 "rm" := by
   simp [exec, execList, execStmt, toModule, swap, swapEntries, swapEntriesWith, setTensor, setTensorNative, setTensorWith,
     h0, Dict.get?, Dict.pop, place, Dict.set, Option.join, enterBlock, exitBlock, quickSet, State.td, State.setTd,
@@ -340,23 +453,23 @@ example : cellAt (exec ⟨h0, []⟩ [.tryExcept [.block [("w", .leaf ⟨10, fals
 
 
 def h2 : Heap := fun c =>
-  if c = 0 then { params := [("w", some ⟨1, true⟩), ("b", none)], kids := [("a", some 1), ("b2", some 1)] }
-  else if c = 1 then { params := [("w", some ⟨1, true⟩)], buffers := [("rm", some ⟨2, false⟩)] } else {}
+  if c = 0 then { params := [("w", some ⟨1, true, false⟩), ("b", none)], kids := [("a", some 1), ("b2", some 1)] }
+  else if c = 1 then { params := [("w", some ⟨1, true, false⟩)], buffers := [("rm", some ⟨2, false, false⟩)] } else {}
 
 -- a shared submodule and a tied parameter: four leaves, one object under three names
-example : fromModule h2 3 0 = .ok (some [("w", .leaf ⟨1, true⟩),
-    ("a", .node [("w", .leaf ⟨1, true⟩), ("rm", .leaf ⟨2, false⟩)]),
-    ("b2", .node [("w", .leaf ⟨1, true⟩), ("rm", .leaf ⟨2, false⟩)])]) := by
+example : fromModule h2 3 0 = .ok (some [("w", .leaf ⟨1, true, false⟩),
+    ("a", .node [("w", .leaf ⟨1, true, false⟩), ("rm", .leaf ⟨2, false, false⟩)]),
+    ("b2", .node [("w", .leaf ⟨1, true, false⟩), ("rm", .leaf ⟨2, false, false⟩)])]) := by
   simp [fromModule, fromKids, h2, someEntries, Dict.set, List.isEmpty]
-example : namedTensors h2 3 0 = .ok [(["w"], ⟨1, true⟩), (["a", "w"], ⟨1, true⟩), (["a", "rm"], ⟨2, false⟩),
-    (["b2", "w"], ⟨1, true⟩), (["b2", "rm"], ⟨2, false⟩)] := by
+example : namedTensors h2 3 0 = .ok [(["w"], ⟨1, true, false⟩), (["a", "w"], ⟨1, true, false⟩), (["a", "rm"], ⟨2, false, false⟩),
+    (["b2", "w"], ⟨1, true, false⟩), (["b2", "rm"], ⟨2, false, false⟩)] := by
   simp [namedTensors, namedKids, h2, ownTensors]
 
 -- the tensordict from_module gives for `h2` (a shared submodule under two names) satisfies `ConsP`
-example : ConsP (fun c => if c = 1 then [("w", .leaf ⟨1, true⟩), ("rm", .leaf ⟨2, false⟩)] else []) h2 0
-    [("w", .leaf ⟨1, true⟩),
-     ("a", .node [("w", .leaf ⟨1, true⟩), ("rm", .leaf ⟨2, false⟩)]),
-     ("b2", .node [("w", .leaf ⟨1, true⟩), ("rm", .leaf ⟨2, false⟩)])] := by
+example : ConsP (fun c => if c = 1 then [("w", .leaf ⟨1, true, false⟩), ("rm", .leaf ⟨2, false, false⟩)] else []) h2 0
+    [("w", .leaf ⟨1, true, false⟩),
+     ("a", .node [("w", .leaf ⟨1, true, false⟩), ("rm", .leaf ⟨2, false, false⟩)]),
+     ("b2", .node [("w", .leaf ⟨1, true, false⟩), ("rm", .leaf ⟨2, false, false⟩)])] := by
   simp [ConsP, h2, Dict.get?]
 
 
@@ -448,7 +561,7 @@ open TdVerif.C13.Params in
 /-- a leaf whose *name* contains a dot collides with a nested key: `{"a.b": X, "a": {"b": Y}}` (both
 Parameters) registers one entry for two leaves — the reason for the distinct-names hypothesis. -/
 theorem reset_params_collision_counterexample :
-    (resetParams [(["a.b"], ⟨1, true⟩), (["a", "b"], ⟨2, true⟩)]).1 = [("a.b", ⟨2, true⟩)] := by
+    (resetParams [(["a.b"], ⟨1, true, false⟩), (["a", "b"], ⟨2, true, false⟩)]).1 = [("a.b", ⟨2, true, false⟩)] := by
   simp [resetParams, flatName, Dict.set]
 
 
@@ -506,11 +619,11 @@ values 7 and 8: after the block it holds 7, not 100 (the second clone was taken 
 tensor, and the exit replays the clones in the same order). The recorded finding `C13-inplace-tied-values`. -/
 theorem inplace_tied_counterexample :
     (roundTrip ⟨fun i => if i = 1 then 100 else if i = 2 then 7 else if i = 3 then 8 else 0, 4⟩
-      [(⟨1, true⟩, ⟨2, false⟩), (⟨1, true⟩, ⟨3, false⟩)]).vals 1 = 7 := by
+      [(⟨1, true, false⟩, ⟨2, false, false⟩), (⟨1, true, false⟩, ⟨3, false, false⟩)]).vals 1 = 7 := by
   simp [roundTrip, inplaceAll, inplaceWrite]
 
 open TdVerif.C13.Inplace in
-example : (roundTrip ⟨fun i => if i = 1 then 100 else if i = 2 then 7 else 0, 3⟩ [(⟨1, true⟩, ⟨2, false⟩)]).vals 1 = 100 := by
+example : (roundTrip ⟨fun i => if i = 1 then 100 else if i = 2 then 7 else 0, 3⟩ [(⟨1, true, false⟩, ⟨2, false, false⟩)]).vals 1 = 100 := by
   simp [roundTrip, inplaceAll, inplaceWrite]
 
 end TdVerif.Props.C13
